@@ -25,6 +25,10 @@ func (e *Exec) mapSet(m *MapObj, k, v Value) {
 		e.curFoot.writeMap(m, e)
 	}
 	e.writes++
+	if e.mergeDepth > 0 && m.ID <= e.mergeBase {
+		e.mergeDirty = true
+		e.end("unsupported", "map write inside merged call")
+	}
 	if i := e.mapFind(m, k); i >= 0 {
 		vals := make([]Value, len(m.Vals))
 		copy(vals, m.Vals)
